@@ -146,7 +146,7 @@ const (
 var legitNames = []string{"rejects", "dont-care(future-or-edge ts)", "accepts"}
 
 // rank of reasons (higher = closer to acceptance)
-var reasonRank = map[string]int{"bad-signature": 0, "malformed-ts": 1, "stale-ts": 2, "future-ts": 3, "ok": 4}
+var reasonRank = map[string]int{"bad-signature": 0, "malformed-ts": 1, "stale-ts": 2, "future-ts": 3, "edge-ts": 3, "ok": 4}
 
 func parseIntStrict(t string) (int64, bool) {
 	if t == "" {
@@ -184,7 +184,11 @@ func decodings(s string) [][]byte {
 
 // judge is the harness's independent check of (redirect_uri, sig, ts): sig must be a base64 form of
 // HMAC-SHA256(secret, uri || ts) (ts as sent or in canonical decimal) and ts an integer not older
-// than five minutes relative to base (the instant the case was generated; +-10 s guard band).
+// than five minutes. base is the instant the case was generated, BEFORE any request of the case is
+// sent (same clock as the authenticator's): a timestamp that is already more than 300 s old at base
+// is older still whenever the authenticator looks at it, so the stale side needs no guard band. Only
+// the young side does (a timestamp 290 ... 300 s old at base may or may not have crossed the line
+// when the request is handled; exactly 300 s is the ">" versus ">=" question the statement leaves open).
 func judge(secret, u, s, t string, base int64) (int, string) {
 	if u == "" || s == "" {
 		return legitNo, "bad-signature"
@@ -210,7 +214,7 @@ func judge(secret, u, s, t string, base int64) (int, string) {
 	}
 	age := base - v
 	switch {
-	case age > 310:
+	case age >= 301:
 		return legitNo, "stale-ts"
 	case age >= 290:
 		return legitDontCare, "edge-ts"
@@ -260,7 +264,15 @@ type sigSet struct {
 // genSigned generates the redirect_uri / sig / ts parameters of one signed request (sign_in, sign_out,
 // or the nested part of /start).
 func (rn *runner) genSigned(r *rand.Rand, base int64, modeA bool, ti int) *sigSet {
+	return rn.genSignedMode(r, base, modeA, false, ti)
+}
+
+// genSignedMode: justStale forces the "stale by a small margin, otherwise impeccable" class.
+func (rn *runner) genSignedMode(r *rand.Rand, base int64, modeA, justStale bool, ti int) *sigSet {
 	cfg := rn.cfg
+	if justStale {
+		modeA = false
+	}
 	ss := &sigSet{}
 	root := cfg.raw[r.Intn(len(cfg.raw))]
 	var goodOfRoot []string
@@ -288,7 +300,10 @@ func (rn *runner) genSigned(r *rand.Rand, base int64, modeA bool, ti int) *sigSe
 	// timestamp + signature variants
 	tsIdx := freshTS[r.Intn(len(freshTS))]
 	sigVar := "valid"
-	if !modeA {
+	if !modeA && (justStale || r.Intn(3) == 0) {
+		// stale by a small margin (inside a typical clock-skew allowance), otherwise impeccable
+		tsIdx = justStaleTS[r.Intn(len(justStaleTS))]
+	} else if !modeA {
 		switch r.Intn(3) {
 		case 0: // vary the timestamp, keep the signature valid for it
 			tsIdx = r.Intn(len(tsVariants))
@@ -676,6 +691,18 @@ func (rn *runner) verdict2(i int, endpoint, kind string, acted bool, loc string,
 	anySt, anyWhy := judgeAny(rn.as.ClientSecret, ss.uris, ss.sigs, ss.tss, base)
 	kc.Legit = legitNames[anySt] + " (" + anyWhy + ")"
 	kc.Location = trunc(loc, 600)
+	if anyWhy == "stale-ts" && isJustStale(ss.tsVar) && ss.sigVar == "valid" && ss.dup == "single" && ss.family == "good" &&
+		kc.Place != "wrong-client-id" && kc.Place != "no-client-id" && (endpoint != "start" || kc.Position == "nested") {
+		// the class a clock-skew allowance would let through: a genuine signature, 301 ... 345 s old
+		name := "just_stale_judged_" + endpoint
+		if endpoint == "sign_out" {
+			name += "_" + kc.Method
+		}
+		rep.Count(name, 1)
+		if !acted && rs.Status >= 400 {
+			rep.Count("just_stale_refused", 1)
+		}
+	}
 	if acted {
 		st, why := anySt, anyWhy
 		if u := usedURI(loc, ss); u >= 0 && kind != "idp-login" {
@@ -1173,7 +1200,7 @@ func TestProp(t *testing.T) {
 	rep := vh.NewReport("C07", "exploration")
 	rep.Rule("cases walk (stride) over endpoint{sign_in,sign_out,start,callback,start->callback->sign_in flow, forged-state callback->sign_in flow, start->tampered state->callback->sign_in flow (the last three judged as a whole against what the client supplied)} x redirect-URI template (" + strconv.Itoa(len(templates)) + " parser-differential shapes in 11 families incl. look-alikes derived from the configured roots (every inner dot replaced/deleted)) x mode{valid signature, signature/timestamp sweep} per root-domain configuration {single, leading dot, multiple, nested, nested+multiple, three-label, two-label public suffix, five-label, regexp metacharacter in the configured string, upper-case}; signature variant (41: encodings, mismatches, other hashes, and well-formed HMACs under 21 other specific keys), timestamp variant (30), parameter duplication (9), placement (query/body), cookie state, method and wire form are drawn per case. distinct = the tuple (endpoint, step, template, position, duplication, placement, sig variant, ts variant, cookie, method, wire, config kind) of every request sso answered. Stream c07-any (universal clause): a strided walk over route{callback, sign_in, sign_out, start, profile, validate, redeem, refresh, static, robots.txt, ping, /, unknown} x template x identity-provider error slot{absent, the 16 RFC 6749 4.1.2.1 / OIDC 3.1.2.6 codes, unknown word, case variant, padded, empty, duplicated, URL, vendor code}; path spelling (canonical / 20 non-canonical: no slug, wrong slug, case, slashes, dot segments, encoded, foreign-host prefixes, absolute-form), shape of the redirect material {top level, redirect_sig, nested in redirect_uri, tricky outer, in the state (direct / nested / tricky outer), other URL-valued parameter, error_uri} plus an optional second validly signed shape, signed / swept / unsigned, code, error_description, error_uri, CSRF cookie, session cookie, method, body/query placement, Host / X-Forwarded-Host and Accept are drawn per case; every response is judged by the same route-independent clauses (U1 domain of every Location / Refresh reading, U2 signature for IdP logins, minted codes and sign-out redirects); distinct = that tuple")
 	rep.Assume("the fake IdP answers as scripted; Go's net/http client hands the Location header through unmodified (apart from trimming optional whitespace)")
-	rep.Assume("timestamps are generated at fixed offsets (>= 60 s away from the five-minute edge) from the instant the case is built; a request takes far less than the 10 s guard band")
+	rep.Assume("timestamps are generated at fixed offsets from the instant the case is built (before its first request; same clock as the authenticator). Stale side: no guard band - an offset of 301 s or more is already outside the window when signed and only grows. Young side: offsets of 290 ... 300 s are don't-cares (a request takes far less than 10 s; exactly 300 s is the > versus >= question); the fresh class stays >= 60 s away from the edge")
 	rep.Assume("future timestamps, hosts with non-ASCII characters whose IDNA mapping decides membership, and URL schemes are don't-cares (counted, not judged)")
 
 	if bad := readerSelfTest(); len(bad) > 0 {
@@ -1280,6 +1307,16 @@ func TestProp(t *testing.T) {
 		rep.Floor("any_signout_redirects", 10)
 		rep.Floor("any_path_cleanup_redirects", 20)
 		rep.Floor("any_error_pages_for_unsigned", 200)
+	}
+	if !replaying {
+		// stale by a small margin, at every endpoint that checks freshness, in both streams
+		for _, f := range []string{"sign_in", "sign_out_GET", "sign_out_POST", "start", "flow=callback-then-sign_in", "flow=start-tamper-callback-sign_in"} {
+			rep.Floor("just_stale_judged_"+f, 8)
+		}
+		for _, f := range []string{"sign_in_GET", "sign_out_GET", "sign_out_POST", "start_GET"} {
+			rep.Floor("any_just_stale_judged_"+f, 4)
+		}
+		rep.Floor("just_stale_refused", 100)
 	}
 	if !replaying {
 		rep.Floor("code_redirects", 50)
